@@ -19,7 +19,7 @@ import (
 // valueFeatures classifies a value for C11's non-triviality rule.
 type valFeat struct {
 	escape, keyword, nonIdentKey, bigNum, fracNum, nullv, nested, set, emptyColl bool
-	forFirstKey                                                                 bool
+	forFirstKey                                                                  bool
 }
 
 func scanValue(v cty.Value, f *valFeat, depth int) {
